@@ -6,7 +6,7 @@ From Coq Require Import List Arith NArith Bool Lia.
 From TX Require Import Base.Val Model.ConnCode Proofs.ConnCode Gen.C06.
 Import ListNotations.
 
-Definition impl_cfg : cfg := {| use_claim := impl_use_claim; create_cleanup := impl_create_cleanup; use_admit := impl_use_admit; purge_revoked := false |}.
+Definition impl_cfg : cfg := {| use_claim := impl_use_claim; create_cleanup := impl_create_cleanup; use_adm := impl_use_adm; purge_revoked := false |}.
 
 Fixpoint solo (C : cfg) (P : params) (fuel : nat) (t : lo) (s : sh) : list nat :=
   match fuel with
@@ -42,8 +42,8 @@ Lemma side_key_families_disjoint :
   forallb (fun p => unrelated (fst p) (snd p))
           [(key_code, key_id); (key_code, key_claim); (key_id, key_claim); (key_code, key_main); (key_id, key_main);
            (key_claim, key_main); (key_claim, key_glob); (key_claim, key_cidx); (key_main, key_cidx); (key_glob, key_cidx);
-           (key_main, key_glob); (key_admit, key_code); (key_admit, key_id); (key_admit, key_claim); (key_admit, key_main);
-           (key_admit, key_glob); (key_admit, key_cidx)] = true.
+           (key_main, key_glob); (key_adm, key_code); (key_adm, key_id); (key_adm, key_claim); (key_adm, key_main);
+           (key_adm, key_glob); (key_adm, key_cidx)] = true.
 Proof. vm_compute. reflexivity. Qed.
 
 (* every key family the activation / revocation touches (keyed by gate-op code, first key seen in the solo and
@@ -51,7 +51,7 @@ Proof. vm_compute. reflexivity. Qed.
    A key that leaves the shared space (0 = node-local runtime cache, 1 = persistent + local cache) would make the claim,
    the admission marker, the code record or the mapping invisible to the other nodes. *)
 Definition required_ops : list nat :=
-  [1; 2; 4; 5; 6; 7; 8; 9; 10; 11; 12; 13] ++ (if impl_use_claim then [3; 14] else []) ++ (if impl_use_admit then [16; 17] else []).
+  [1; 2; 4; 5; 6; 7; 8; 9; 10; 11; 12; 13] ++ (if impl_use_claim then [3; 14] else []) ++ (if impl_use_adm then [16; 17] else []).
 Lemma side_key_families_cluster_visible :
   forallb (fun p => Nat.eqb (snd p) 2 || Nat.eqb (snd p) 3) key_categories = true /\
   forallb (fun op => existsb (fun p => Nat.eqb (fst p) op) key_categories) required_ops = true.
@@ -63,4 +63,4 @@ Proof. unfold DefaultMaxActiveCodesPerClient, DefaultMaxActiveMappingsPerClient.
 
 (* which variant the tree is: the theorems of Properties/C06.v are about Current; on a tree where a flag is false the
    corresponding `known:` finding is expected and the check reports it *)
-Definition tree_is_repaired : bool := impl_use_claim && impl_create_cleanup && impl_use_admit.
+Definition tree_is_repaired : bool := impl_use_claim && impl_create_cleanup && impl_use_adm.
